@@ -34,6 +34,34 @@ def same(a, b):
     return a.keys() == b.keys() and all(a[k] == b[k] for k in a)
 
 
+def roughen(spec, rng, run):
+    """Field-data features the generators of the other checks do not produce: first-order moments outside the unit disk
+    (noisy buoy data), a track that crosses the antimeridian, time stamps with milliseconds. Done before any snapshot."""
+    ds = spec.dataset
+    if "a1" in ds and rng.random() < 0.4:
+        a1, b1 = np.array(ds["a1"].values, dtype=float), np.array(ds["b1"].values, dtype=float)
+        flat_a, flat_b = a1.reshape(-1), b1.reshape(-1)
+        for _ in range(rng.randint(1, 3)):
+            k = rng.randrange(flat_a.size)
+            ang = rng.uniform(0, 2 * np.pi)
+            flat_a[k], flat_b[k] = 1.03 * np.cos(ang), 1.03 * np.sin(ang)
+        ds["a1"] = (ds["a1"].dims, np.ascontiguousarray(a1))
+        ds["b1"] = (ds["b1"].dims, np.ascontiguousarray(b1))
+        run.count("moments_outside_unit_disk")
+    if "longitude" in ds and ds["longitude"].values.size > 1 and rng.random() < 0.4:
+        lon = np.array(ds["longitude"].values, dtype=float)
+        flat = lon.reshape(-1)
+        flat[:] = [((179.2 + 0.5 * i + 180.0) % 360.0) - 180.0 for i in range(flat.size)]      # 179.2, 179.7, -179.8, ...
+        ds["longitude"] = (ds["longitude"].dims, lon)
+        run.count("track_across_antimeridian")
+    if "time" in ds and rng.random() < 0.5:
+        t = np.array(ds["time"].values).astype("datetime64[ns]")
+        shift = np.array([rng.choice([123, 1, 999, 250]) for _ in range(t.size)], dtype="int64").reshape(t.shape)
+        ds["time"] = (ds["time"].dims, t + shift.astype("timedelta64[ms]")) if t.ndim else t + np.timedelta64(int(shift), "ms")
+        run.count("millisecond_time_stamps")
+    return spec
+
+
 def ops_for(spec, rng, others):
     """list of (name, callable, inplace?)"""
     f = spec.frequency.values
@@ -77,6 +105,7 @@ def ops_for(spec, rng, others):
         ops.append(("as_frequency_spectrum", lambda: spec.as_frequency_spectrum(), False))
     else:
         ops.append(("as_frequency_direction_spectrum", lambda: spec.as_frequency_direction_spectrum(12, method="mem", solution_method="scipy"), False))
+        ops.append(("as_frequency_direction_spectrum_mem2", lambda: spec.as_frequency_direction_spectrum(12, method="mem2", solution_method="approximate"), False))
         ops.append(("interpolate_frequency_spline", lambda: spec.interpolate_frequency(np.linspace(f[0], f[-1], 4), method="spline"), False))
         ops.append(("interpolate_frequency_nearest", lambda: spec.interpolate_frequency(np.linspace(f[0], f[-1], 4), method="nearest"), False))
     # documented in-place operations
@@ -98,7 +127,7 @@ def check_sequences(run, ncases):
                     s, _m = sp.make_1d(rng, layout=layout, f=f, nan_rate=0.1, depth_mode="deep")
                 else:
                     s, _m = sp.make_2d(rng, layout=layout, f=f, d=30.0 * np.arange(12), nan_rate=0.05, depth_mode="deep")
-                pool.append(s)
+                pool.append(roughen(s, rng, run))
             hist = []
             for step in range(rng.randint(1, 6)):
                 tgt = rng.randrange(len(pool))
@@ -148,6 +177,39 @@ def check_sequences(run, ncases):
                     pool.append(res)
             if case < 3:
                 run.sample(dict(layout=layout, operations=hist))
+
+
+def check_reductions(run, ncases):
+    """mean / sum / std along the leading dimension on tracks that cross the antimeridian or the prime meridian, with
+    noisy moments: the operand is left as it was"""
+    rng = run.rng
+    for case in range(ncases):
+        with warnings.catch_warnings():
+            warnings.simplefilter("ignore")
+            two_d = rng.random() < 0.4
+            layout = rng.choice(["time", "time", "time_lat"])
+            spec, meta = (sp.make_2d(rng, layout=layout) if two_d else sp.make_1d(rng, layout=layout))
+            ds = spec.dataset
+            if "longitude" in ds and ds["longitude"].values.size > 1:
+                lon = np.array(ds["longitude"].values, dtype=float)
+                flat = lon.reshape(-1)
+                centre = rng.choice([180.0, 180.0, 180.0, 0.0, 359.5])
+                flat[:] = [((centre - 0.8 + 0.5 * i + 180.0) % 360.0) - 180.0 if centre == 180.0 else (centre - 0.8 + 0.5 * i) % 360.0
+                           for i in range(flat.size)]
+                ds["longitude"] = (ds["longitude"].dims, lon)
+            d0 = spec.dims_space_time[0]
+            for name in ("mean", "sum", "std"):
+                run.case("reduction", key=(case, name, layout, two_d))
+                before = snapshot(spec)
+                try:
+                    getattr(spec, name)(d0)
+                except Exception:
+                    run.count("op_raised_" + name)
+                if snapshot(spec) != before:
+                    b, a = before, snapshot(spec)
+                    run.violation("a reduction changed its operand", dict(operation=name, layout=layout,
+                                                                          variables=[k for k in b if b[k] != a.get(k)][:5],
+                                                                          longitude=np.asarray(ds["longitude"].values).reshape(-1).tolist()[:6]))
 
 
 def check_concat(run, ncases):
@@ -243,6 +305,7 @@ def check_netcdf(run, ncases):
                 two_d = rng.random() < 0.5
                 layout = rng.choice(["time", "time_lat", "scalar", "flat"])
                 spec, meta = (sp.make_2d(rng, layout=layout) if two_d else sp.make_1d(rng, layout=layout))
+                spec = roughen(spec, rng, run)
                 path = os.path.join(tmp, f"s{case}.nc")
                 run.case("netcdf", key=(layout, two_d))
                 before = snapshot(spec)
@@ -283,6 +346,8 @@ def main(prop, tier, seed):
     k = 10 if thorough else 1
     with common.guard(run, "operation sequences"):
         check_sequences(run, 60 * k)
+    with common.guard(run, "reductions"):
+        check_reductions(run, 12 * k)
     with common.guard(run, "concatenation"):
         check_concat(run, 25 * k)
     with common.guard(run, "flatten"):
